@@ -15,14 +15,13 @@ impl RequestHandler<CodeLensRequest> for CodeLensRequestHandler {
         ctx: &mut LspContext,
         params: CodeLensParams,
     ) -> MosResult<Option<Vec<CodeLens>>> {
-        let tests = enumerate_test_cases(
-            ctx.parsing_source(),
-            &to_path(&params.text_document.uri),
-        )
-        .unwrap_or_default();
+        let path = to_path(&params.text_document.uri);
+        let tests = enumerate_test_cases(ctx.parsing_source(), &path).unwrap_or_default();
 
         let result = tests
             .into_iter()
+            // The lenses of a document sit in that document: tests of the files it imports belong to those
+            .filter(|(sl, _)| path.to_str() == Some(sl.file.name()))
             .flat_map(|(sl, test_case_path)| {
                 let run = CodeLens {
                     range: to_range(sl.clone()),
